@@ -67,6 +67,18 @@ TABLE = {
         note="Trusted: the system cpp; in the quick tier the deep comparisons run for -std=c11 and the string form only.",
         ref="DESIGN.md section 4, C19",
     ),
+    "C17": dict(
+        technique="metamorphic oracle: re-layout (line-per-token, single line with maximal adjacency, random blanks/tabs/newlines, linemarkers changing line and file between arbitrary tokens) and redundant-parenthesis re-rendering of Hypothesis-generated and corpus programs must leave dump and regenerated text unchanged",
+        text="Each generated translation unit (token list from the model renderer) and each corpus file (split by the reference tokenizer) is laid out in two extreme and several random ways, with linemarkers of 8 forms between arbitrary tokens; model programs are additionally re-rendered with redundant parentheses. All variants must parse to the same AST (coordinates aside) and regenerate the same text. Statistical; corpus files are randomised inside a sliding 250-token span.",
+        note="Trusted: the reference tokenizer's adjacency rule; programs the tree does not accept carry no claim.",
+        ref="DESIGN.md section 4, C17",
+    ),
+    "C18": dict(
+        technique="exhaustive single-bracket mutation and non-token injection of Hypothesis-generated and corpus programs + exhaustive bracket strings in three contexts, bracket-matcher oracle",
+        text="Every single-bracket deletion, duplication and kind swap and every injection of non-token text at bracket positions and declaration/statement boundaries (every token boundary in the thorough tier) of accepted programs must be rejected with ParseError; all bracket strings up to length 6 (quick) / 8 (thorough) in expression, declarator and statement contexts that an independent matcher finds unbalanced must be rejected. Complete per base program and inside the string bound; base programs are sampled.",
+        note="Trusted: the 10-line bracket matcher and the reference tokenizer used to split corpus files.",
+        ref="DESIGN.md section 4, C18",
+    ),
 }
 
 NOT_YET = "check not built yet in this session (work in progress; see DESIGN.md section 9 for the order of work)"
